@@ -595,6 +595,9 @@ func crossTpl(name string) chainx.Tpl {
 	if strings.HasPrefix(name, thrPrefix) { // plan H: the name is the program of the block
 		return thrTpl(name)
 	}
+	if strings.HasPrefix(name, shPrefix) { // plan I: the name says kind, pack and role
+		return shTpl(name)
+	}
 	for _, t := range crossTemplates() {
 		if t.Name == name {
 			return t
@@ -607,10 +610,11 @@ func crossTpl(name string) chainx.Tpl {
 
 // xpath is one fixed history of plan G.
 type xpath struct {
-	group string   // family of paths (evidence counter)
-	label string   // short stable name used in violation keys
-	names []string // template name per block
-	first int      // restarts are enumerated after every block from this history index on (1-based)
+	group string    // family of paths (evidence counter)
+	label string    // short stable name used in violation keys
+	names []string  // template name per block
+	first int       // restarts are enumerated after every block from this history index on (1-based)
+	vs    []variant // plan I: the path brings its own variants
 }
 
 const xP = 3 // height of the last preamble block (pad 0)
@@ -834,8 +838,12 @@ func crossScenarios(r *vk.Run, base *scenario, paths []xpath) []*scenario {
 			tpls = append(tpls, crossTpl(name))
 			h[i] = i
 		}
+		vs := p.vs
+		if vs == nil {
+			vs = crossVariants(len(h), p.first)
+		}
 		out = append(out, &scenario{
-			r: r, vs: crossVariants(len(h), p.first), fam: base.fam, pad: base.pad, tpls: tpls, depth: len(h), fixed: [][]int{h},
+			r: r, vs: vs, fam: base.fam, pad: base.pad, tpls: tpls, depth: len(h), fixed: [][]int{h},
 			preamble: base.preamble, preObs: base.preObs, world: base.world, tree: map[histKey]*treeNode{},
 			seq: true, label: p.label, group: p.group,
 		})
@@ -858,6 +866,10 @@ func (sc *scenario) growPath() error {
 		if err := thrVerify(n, sc.tpls[h[i-1]].Name); err != nil {
 			return fmt.Errorf("block %d: %w", i, err)
 		}
+		if err := shVerify(n, sc.tpls[h[i-1]].Name); err != nil {
+			return fmt.Errorf("block %d: %w", i, err)
+		}
+		shMeasureDepth(n, sc.tpls[h[i-1]].Name)
 	}
 	return nil
 }
